@@ -253,34 +253,70 @@ static std::vector<Spec> histCircuits() {
   // non-default but accepted options on two of the circuits: initial steps without penalty, other net models, reordering
   v[1].devs = {{F_maxNbSteps, 12}, {F_nbInitialSteps, 2}, {F_reorderingMaxNbCells, 3}};
   v[2].devs = {{F_maxNbSteps, 9}, {F_nbInitialSteps, 3}, {F_netModel, 1}, {F_approximationDistance, 7.0}, {F_shiftMaxNbCells, 3}};
+  // a medium-size circuit (24 cells on 4 rows: several shift / search windows per pass) under two parameter sets whose
+  // window sizes and efforts differ: state that the first call of a process fixes shows when the other one follows
+  {
+    std::vector<Spec> med;
+    MediumCfg mc;
+    mc.polarities = false;
+    enumerateMedium(mc, [&](const Spec &m) { med.push_back(m); });
+    // member 145 of the grid without polarities: 24 equal cells starting on one spot, 4 rows, 12 three-pin nets (dense rows after
+    // legalization, so the partition of a row group into shift windows decides the result)
+    Spec a = med.at(145), b = med.at(145);
+    a.effort = 2; a.seed = 3; a.devs = {{F_maxNbSteps, 8}, {F_shiftMaxNbCells, 4}, {F_lsNeighbours, 1}};
+    b.effort = 9; b.seed = 3; b.devs = {{F_maxNbSteps, 8}, {F_shiftMaxNbCells, 14}, {F_reorderingMaxNbCells, 3}};
+    v.push_back(a);
+    v.push_back(b);
+  }
   return v;
 }
 
-// run (circuit k, stage) alone in a fresh process
-static uint64_t aloneInFreshProcess(const Spec &s, int stage) {
-  int fd[2];
-  if (pipe(fd) != 0) return 0;
+// run (circuit k, stage) alone in a pristine process.  A plain fork() of the worker is not pristine: it inherits every
+// function-local static and cache that earlier evaluations of this worker have initialised.  Each worker therefore forks a
+// "zygote" on its first hist evaluation, before it has called the library at all; the zygote never calls the library
+// itself and forks one grandchild per request.
+static int gZygoteReq = -1, gZygoteResp = -1;
+static void startZygote() {
+  int req[2], resp[2];
+  if (pipe(req) != 0 || pipe(resp) != 0) return;
   fflush(nullptr);
   pid_t pid = fork();
   if (pid == 0) {
-    close(fd[0]);
-    Circuit c = build(s);
-    uint64_t h = runStage(c, stage, makeParams(s), false);
-    (void)!write(fd[1], &h, sizeof h);
+    close(req[1]);
+    close(resp[0]);
+    int msg[2];
+    while (read(req[0], msg, sizeof msg) == (ssize_t)sizeof msg) {
+      pid_t g = fork();
+      if (g == 0) {
+        auto circuits = histCircuits();
+        Circuit c = build(circuits[msg[0]]);
+        uint64_t h = runStage(c, msg[1], makeParams(circuits[msg[0]]), false);
+        (void)!write(resp[1], &h, sizeof h);
+        _exit(0);
+      }
+      int st;
+      waitpid(g, &st, 0);
+      if (!(WIFEXITED(st) && WEXITSTATUS(st) == 0)) { uint64_t h = 0xdeadULL; (void)!write(resp[1], &h, sizeof h); }
+    }
     _exit(0);
   }
-  close(fd[1]);
+  close(req[0]);
+  close(resp[1]);
+  gZygoteReq = req[1];
+  gZygoteResp = resp[0];
+}
+static uint64_t aloneInPristineProcess(int k, int stage) {
+  int msg[2] = {k, stage};
+  if (gZygoteReq < 0 || write(gZygoteReq, msg, sizeof msg) != (ssize_t)sizeof msg) return 0;
   uint64_t h = 0;
-  (void)!read(fd[0], &h, sizeof h);
-  close(fd[0]);
-  int st;
-  waitpid(pid, &st, 0);
+  (void)!read(gZygoteResp, &h, sizeof h);
   return h;
 }
 
 // hist instance: aux = sequence of (circuit*6 + stage*2 + cb) items base 32 (digit+1), least significant first
 static vf::Verdicts evalHist(const Spec &inst, vf::Ctx &ctx) {
   vf::Verdicts out;
+  if (gZygoteReq < 0) startZygote();  // first evaluation of this worker: nothing of the library has run in this process yet
   auto circuits = histCircuits();
   std::vector<int> items;
   for (int a = inst.aux; a > 0; a /= 32) items.push_back(a % 32 - 1);
@@ -300,7 +336,7 @@ static vf::Verdicts evalHist(const Spec &inst, vf::Ctx &ctx) {
     keepAlive.push_back(copy);
     ctx.count("runs_in_sequences", 2);
   }
-  uint64_t alone = aloneInFreshProcess(circuits[k], stage);
+  uint64_t alone = aloneInPristineProcess(k, stage);
   if (alone != last)
     out.push_back({"result-depends-on-earlier-runs", "last run (circuit " + std::to_string(k) + ", stage " + std::to_string(stage) + ") of sequence " + std::to_string(inst.aux) +
                                                        " differs from the same run alone in a fresh process"});
@@ -340,7 +376,7 @@ static void enumerateAll(const std::function<void(const Spec &)> &f) {
     return;
   }
   if (gPass == "hist") {
-    int nItems = 3 * 6;
+    int nItems = 5 * 6;
     for (int a = 0; a < nItems; ++a) {
       Spec s; s.aux = a + 1; f(s);
       for (int b = 0; b < nItems; ++b) {
@@ -409,8 +445,8 @@ int main(int argc, char **argv) {
     c.rule = "pass memcheck: every single run and every pair starting with a global placement (3 circuits with default and non-default accepted options x 3 stages x callback) executed under "
              "valgrind memcheck; the first use of uninitialised memory or invalid access kills the worker and is attributed to the instance";
   else
-    c.rule = "pass hist: every sequence of length <= 2 (3 on a third of the product in thorough) of independent runs over 3 circuits x {placeGlobal, legalize, placeDetailed} x {callback, none} in one "
-             "process, each on a copy and on the original with the callback toggled; the last run of the sequence is compared with the same run alone in a freshly forked process";
+    c.rule = "pass hist: every sequence of length <= 2 (3 on a third of the product in thorough) of independent runs over 5 circuits (3 small; a 24-cell one under two parameter sets with different efforts and window sizes) x {placeGlobal, legalize, placeDetailed} x {callback, none} in one "
+             "process, each on a copy and on the original with the callback toggled; the last run of the sequence is compared with the same run alone in a pristine process (forked from a per-worker zygote that was itself forked before the worker made its first library call, so that no static initialised by earlier runs is inherited)";
   c.bounds = gThorough ? "preemption bound 3 (3 steps) / 2 (6 steps)" : "preemption bound 2";
   c.assumptions = {"scheduling points are the hooked points (begin / matrix built / end of each solve); finer-grained races are left to the ThreadSanitizer pass",
                    "the scheduler serialises the workers, the main thread is blocked in future::get meanwhile"};
